@@ -2,9 +2,15 @@
 
 package tools
 
+import "io"
+
 // Verification hooks (see verif_on.go). Without the `verif` build tag they are
 // empty functions: no allocation, no I/O, no branch on the environment.
 
 func VerifCrash(point string) {}
 
 func VerifTrace(event string, args ...interface{}) {}
+
+func VerifFs(op, src, dst string) {}
+
+func VerifWriter(w io.Writer) io.Writer { return w }
